@@ -363,7 +363,7 @@ theorem forEach_outcome (n : Nat) (w : Int) (gp : Option Nat) (pan : Nat → Boo
     | sendClosed => simp [allowed, allowed0, forEachCfg, writesOf] at ha
     | mapper i =>
       right; right
-      simp only [allowed, allowed0, refined, Bool.and_true, Bool.and_eq_true, decide_eq_true_eq, hasPanic,
+      simp only [allowed, allowed0, refined, Bool.and_true, Bool.and_eq_true, hasPanic,
         List.contains_iff_mem, forEachCfg] at ha
       refine ⟨i, of_decide_eq_true ha.1, ?_, rfl⟩
       have := ha.2
